@@ -551,8 +551,10 @@ def run(ctx):
             case["insert_functions"] = [{"name": "added_%d" % j, "asm": ctx.rng.choice(["nop\nret", "ret", "movl $1, %eax\nret"]),
                                          "when": ctx.rng.randint(0, len(regs))} for j in range(ctx.rng.randint(1, 2))]
         check_case(ctx, case, regs, ctx.rng.random() < 0.3, pending)
-        if len(pending) >= 300:
+        if len(pending) >= 100:
             flush(ctx, pending)
+        if len(ctx.violations) > 20:
+            break           # enough failing inputs; a defect that makes every further rewrite slower would only stall the check
     flush(ctx, pending)
     # the store and the scope classes on their own, against the Lean model
     spending = []
